@@ -2,7 +2,7 @@
 NAMEFIX, BYNAME, PRESENT, NOLOSS, BIN, PAIRIO."""
 import ast
 import re
-from ..core import AnalysisError, norm, dotted, call_name, walk_no_nested, const_str, Folder, TOP, parent_map
+from ..core import AnalysisError, norm, dotted, call_name, walk_no_nested, const_str, Folder, TOP, parent_map, is_self_attr
 from ..iomodel import IOBuilder, dispatch_table, layout_equiv
 from ..layout import load_table, fields_of, layout
 from ..fmap import ReaderEval, WriterEval, reader_ctor_map, Sym
@@ -729,6 +729,50 @@ def rule_pure(run):
     pure_rule(run, [fi for name, fi in sorted(cls.methods.items()) if name.startswith('write')])
 
 
+def rule_echo(run):
+    run.rule('ECHO', 'whether the extra-precision sections are echoed in the main file is a fact about the complete main file: an '
+             'echo flag computed from self._sections inside a section handler (while read() is still appending to that list) is '
+             'premature unless read() re-evaluates it after its section loop', floor=1)
+    prog = run.prog
+    cls = prog.cls('t2data', 't2data')
+    rd = prog.func(T + 'read')
+    key = 't2data.read :: echo flag decided from the complete section list'
+
+    def echo_from_sections(fi):
+        out = []
+        for n in walk_no_nested(fi.node):
+            if isinstance(n, ast.Assign) and any(is_self_attr(t) and t.attr in ('echo_extra_precision', '_echo_extra_precision') for t in n.targets) \
+               and any(is_self_attr(x, '_sections') for x in ast.walk(n.value)): out.append(n)
+        return out
+    # handlers reachable from the dispatch inside the loop
+    up = prog.func(T + 'update_read_write_functions')
+    table = dispatch_table(prog, up, 'read_fn') or {}
+    todo, seen, early = [m for m in table.values() if m is not None], set(), []
+    while todo:
+        m = todo.pop()
+        if m.name in seen: continue
+        seen.add(m.name)
+        for st in echo_from_sections(m): early.append((m, st))
+        for c in walk_no_nested(m.node):
+            if isinstance(c, ast.Call) and is_self_attr(c.func) and c.func.attr in cls.methods and c.func.attr.startswith('read'):
+                todo.append(cls.methods[c.func.attr])
+    loops = [n for n in rd.node.body if isinstance(n, ast.While)]
+    if len(loops) != 1:
+        run.unknown(key, 'section loop of read() not found', where=rd.where()); return
+    after = rd.node.body[rd.node.body.index(loops[0]) + 1:]
+    late = [n for st in after for n in ast.walk(st) if isinstance(n, ast.Assign) and
+            any(is_self_attr(t) and t.attr in ('echo_extra_precision', '_echo_extra_precision') for t in n.targets) and
+            any(is_self_attr(x, '_sections') for x in ast.walk(n.value))]
+    if early and not late:
+        m, st = early[0]
+        run.violated(key, '%s sets the echo flag from self._sections (`%s`) while read() has only appended the sections seen so far (it runs '
+                     'from the SIMUL handler, the first section), and read() never re-evaluates it: a file written with echoed extra-precision '
+                     'sections is read back as not echoed, and the next write drops ROCKS/ELEME/CONNE/GENER from the main file'
+                     % (m.short, norm(st)[:90]), where=m.where(st))
+    elif late: run.ok(key, 're-evaluated after the section loop: %s' % norm(late[0])[:90], where=rd.where(late[0]))
+    else: run.ok(key, 'no handler decides the echo flag from the partial section list', where=rd.where())
+
+
 def rule_pair(run):
     from .c08 import pair_rule
     pair_rule(run, ['t2data'], set(['t2data']), floor=4,
@@ -736,6 +780,7 @@ def rule_pair(run):
 
 
 def check(run):
+    run.guarded('ECHO', rule_echo)
     run.guarded('PAIR', rule_pair)
     run.guarded('PURE', rule_pure)
     run.guarded('DISP', rule_disp_kw_recseq_term)
